@@ -330,6 +330,103 @@ Proof.
   reflexivity.
 Qed.
 
+(* ------------------------------------------------------------------ start offsets *)
+Lemma rank_mono s a b : (a <= b)%nat -> (rank g s a <= rank g s b)%nat.
+Proof. intros H. replace b with (a + (b - a))%nat by lia. rewrite rank_add. lia. Qed.
+Lemma rank_succ s b x t : skipn b s = x :: t -> has x g = false -> rank g s (S b) = S (rank g s b).
+Proof.
+  intros Hs Hx. replace (S b) with (b + 1)%nat by lia. rewrite rank_add, Hs. rewrite rank_cons_res by exact Hx. rewrite rank_0. lia.
+Qed.
+Lemma residues_slice s a b : (a <= b)%nat ->
+  residues (Some g) (slice a b s) = (Z.of_nat (rank g s b) - Z.of_nat (rank g s a))%Z.
+Proof.
+  intros H. replace b with (a + (b - a))%nat at 2 by lia. rewrite rank_add.
+  unfold residues, slice, rank, degap, is_gap. lia.
+Qed.
+Lemma alts_nil_none : m_alts A [] = None.
+Proof.
+  revert Hws. induction ws as [|w l IH]; intros Hl; [reflexivity|].
+  cbn [forallb] in Hl. apply andb_prop in Hl. destruct Hl as [Hw Hl]. apply andb_prop in Hw. destruct Hw as [Hn Hp].
+  cbn [map m_alts]. rewrite gw_nil; [now apply IH|destruct w; discriminate|exact Hp].
+Qed.
+(* a reported match begins on a residue *)
+Lemma match_starts_on_residue s b e : In (b, e) (finditer A s 0 0) -> exists x t, skipn b s = x :: t /\ has x g = false.
+Proof.
+  intros Hi. apply finditer_sound in Hi. destruct Hi as (_ & _ & _ & Hm). rewrite Nat.sub_0_r in Hm.
+  destruct (skipn b s) as [|x t] eqn:E; [rewrite alts_nil_none in Hm; discriminate|].
+  exists x, t. split; [reflexivity|]. destruct (has x g) eqn:Ex; [|reflexivity]. rewrite alts_gap_none in Hm by exact Ex. discriminate.
+Qed.
+Lemma start_filter_corr s st b e : In (b, e) (finditer A s 0 0) ->
+  (Z.of_nat (rank g s st) <=? Z.of_nat (rank g s b))%Z = (Z.of_nat st <=? Z.of_nat b)%Z.
+Proof.
+  intros Hi. destruct (match_starts_on_residue s b e Hi) as (x & t & Hs & Hx).
+  pose proof (rank_succ s b x t Hs Hx) as Hsucc.
+  destruct (Nat.le_gt_cases st b) as [Hle|Hgt].
+  - pose proof (rank_mono s st b Hle). rewrite (proj2 (Z.leb_le _ _)) by lia. symmetry. apply Z.leb_le. lia.
+  - pose proof (rank_mono s (S b) st ltac:(lia)). rewrite (proj2 (Z.leb_gt _ _)) by lia. symmetry. apply Z.leb_gt. lia.
+Qed.
+Lemma filter_map_swap {X Y} (p : Y -> bool) (h : X -> Y) l : filter p (map h l) = map h (filter (fun x => p (h x)) l).
+Proof. induction l as [|x l IH]; [reflexivity|]. cbn. destruct (p (h x)); cbn; now rewrite IH. Qed.
+
+Lemma raw_pass_corr s st :
+  raw_pass B (degap g s) (Z.of_nat (rank g s st)) = map (respan g s) (raw_pass A s (Z.of_nat st)).
+Proof.
+  unfold raw_pass. rewrite <- finditer_gap_transparent, filter_map_swap. f_equal.
+  apply filter_ext_in. intros [b e] Hi. unfold respan. cbn [fst]. now apply start_filter_corr with (e := e).
+Qed.
+
+(* forward matches for any start offset: the offset is translated like every other column *)
+Theorem fwd_gap_transparent_start s rfn st :
+  map (degap_bm s) (fwd_list A s (Z.of_nat st) (Some g) rfn)
+  = fwd_list B (degap g s) (Z.of_nat (rank g s st)) None rfn.
+Proof.
+  unfold fwd_list. destruct (runs_fwd rfn); [|reflexivity].
+  rewrite raw_pass_corr, filter_map_map.
+  apply map_filter_map_in. intros [b e] Hi. unfold raw_pass in Hi. apply filter_In in Hi. destruct Hi as [Hi Hst].
+  cbn [fst] in Hst. apply Z.leb_le in Hst.
+  apply finditer_sound in Hi. destruct Hi as (_ & Hbe & Hel & _). cbn in Hel.
+  unfold fwd_one, respan. cbn [fst snd]. destruct rfn as [l|].
+  - assert (Hfr : frame_of (fwd_gaps None (Some l) (degap g s) (Z.of_nat (rank g s st))) (Z.of_nat (rank g s st)) (Z.of_nat (rank g s b))
+                  = frame_of (fwd_gaps (Some g) (Some l) s (Z.of_nat st)) (Z.of_nat st) (Z.of_nat b)).
+    { change (fwd_gaps (Some g) (Some l) s (Z.of_nat st)) with (option_map (fun g0 => gap_positions g0 s 0 (Z.of_nat st)) (Some g)).
+      rewrite (frame_formula (Some g) s (Z.of_nat st) b) by lia. rewrite Nat2Z.id. rewrite residues_slice by lia.
+      unfold frame_of, fwd_gaps. f_equal. lia. }
+    rewrite Hfr. destruct (zmem _ l); [|reflexivity]. cbn [option_map]. unfold degap_bm. cbn [bm_b bm_e bm_group bm_rf].
+    rewrite !Nat2Z.id. rewrite degap_slice by lia. reflexivity.
+  - cbn [option_map]. unfold degap_bm. cbn [bm_b bm_e bm_group bm_rf]. rewrite !Nat2Z.id. rewrite degap_slice by lia. reflexivity.
+Qed.
+
+(* backward matches: the offset counts columns of the reverse complement, so it is translated by the numbering of that strand *)
+Theorem bwd_gap_transparent_start s rfn st : forallb gap_char_ok g = true ->
+  map (degap_bm s) (bwd_list A s (Z.of_nat st) (Some g) rfn)
+  = bwd_list B (degap g s) (Z.of_nat (rank g (rc s) st)) None rfn.
+Proof.
+  intros Hg. unfold bwd_list. destruct rfn as [l|]; [|reflexivity]. destruct (has_bwd l); [|reflexivity]. cbv zeta.
+  rewrite rc_degap by exact Hg.
+  rewrite raw_pass_corr, filter_map_map.
+  apply map_filter_map_in. intros [b e] Hi. unfold raw_pass in Hi. apply filter_In in Hi. destruct Hi as [Hi Hst].
+  cbn [fst] in Hst. apply Z.leb_le in Hst.
+  apply finditer_sound in Hi. destruct Hi as (_ & Hbe & Hel & _). cbn in Hel.
+  rewrite rc_length in Hel.
+  unfold bwd_one, respan. cbn [fst snd].
+  assert (Hfr : frame_of (bwd_gaps None (degap g (rc s)) (Z.of_nat (rank g (rc s) st))) (Z.of_nat (rank g (rc s) st)) (Z.of_nat (rank g (rc s) b))
+                = frame_of (bwd_gaps (Some g) (rc s) (Z.of_nat st)) (Z.of_nat st) (Z.of_nat b)).
+  { change (bwd_gaps (Some g) (rc s) (Z.of_nat st)) with (option_map (fun g0 => gap_positions g0 (rc s) 0 (Z.of_nat st)) (Some g)).
+    rewrite (frame_formula (Some g) (rc s) (Z.of_nat st) b) by (rewrite ?rc_length; lia). rewrite Nat2Z.id. rewrite residues_slice by lia.
+    unfold frame_of, bwd_gaps. cbn [option_map]. f_equal. lia. }
+  rewrite Hfr. destruct (zmem _ l); [|reflexivity]. cbn [option_map]. unfold degap_bm. cbn [bm_b bm_e bm_group bm_rf].
+  rewrite degap_slice by lia. rewrite rc_length.
+  pose proof (rank_rc g s e Hg ltac:(lia)) as He. pose proof (rank_rc g s b Hg ltac:(lia)) as Hb.
+  assert (HL : length (degap g (rc s)) = length (degap g s)) by (rewrite <- rc_degap by exact Hg; apply rc_length).
+  rewrite HL.
+  replace (Z.of_nat (length s) - Z.of_nat e)%Z with (Z.of_nat (length s - e)) by lia.
+  replace (Z.of_nat (length s) - Z.of_nat b)%Z with (Z.of_nat (length s - b)) by lia.
+  rewrite !Nat2Z.id.
+  replace (Z.of_nat (length (degap g s)) - Z.of_nat (rank g (rc s) e))%Z with (Z.of_nat (rank g s (length s - e))) by lia.
+  replace (Z.of_nat (length (degap g s)) - Z.of_nat (rank g (rc s) b))%Z with (Z.of_nat (rank g s (length s - b))) by lia.
+  reflexivity.
+Qed.
+
 (* matchall as a whole, start = 0 *)
 Theorem matchall_gap_transparent s sub rf out : forallb gap_char_ok g = true ->
   ws = words sub -> matchall s sub rf 0 (Some g) = Some out ->
